@@ -128,6 +128,9 @@ def main(argv=None) -> int:
     for mech in m["violation_mechs"]:
         if mech in known:
             known_hit[mech] = max(known_hit[mech], m["violation_mechs"][mech])
+        elif mech not in new_mechs:
+            # counted by a shard whose witness did not survive (a crashed or capped shard): still a violation
+            new_mechs[mech] = {"mechanism": mech, "description": f"observed {m['violation_mechs'][mech]}x; no witness kept", "case": None, "shard": "?"}
 
     lines = []
     for mech in sorted(known_hit):
